@@ -13,12 +13,12 @@ CLAIMS = {
     'C01': ('M', M, 'Bounded: every input of at most LMAX = 112 (quick) / 128 (thorough) bytes to both v1 entry points; each feasible path of the MIR is checked against a declarative grammar oracle (Ok <=> well-formed line; decoded fields = written fields).', 'trusts the std models of mirsym (validated against the native crate on one witness per path and on the repo\'s test literals, every run), z3, and the grammar oracle in mirsym/oracles.py; std\'s address grammar is uninterpreted (contract facts only)'),
     'C02': ('K+M', KMV2, 'Bounded: K: all 240-byte buffers x all lengths, decided by SAT over the compiled parser against an independent reference decoder; M: the parser\'s MIR on S[0, L) for every input length 0 <= L <= isize::MAX (every declared length 0..65535 actually present): each of the 82 feasible paths must return the verdict, payload, decoded addresses and header slice of the reference decoder formula.', 'trusts Kani/CBMC, the reference decoders (kani/src/refmodel.rs, mirsym/props_v2.py), mirsym\'s v2 models and z3'),
     'C03': ('K+M', KM, 'Bounded: v2 parser + every accessor on all 240-byte buffers, TLV iteration on every section <= 24 (48 thorough) bytes (Kani\'s panic/overflow/bounds/unwinding checks are the property); v1 text entry + views + Display, v1 byte entry, auto-detection glue and PartialResult impls on every input <= LMAX = 112 bytes (no Panic outcome on any feasible MIR path; FromStr impls in the thorough tier); v2 parser, accessors and one TLV iterator step from any reachable cursor state again in Engine M with NO length bound.', 'trusts Kani/CBMC, mirsym\'s std models (incl. the slicing / char-boundary panics they raise) and z3; core::fmt internals and thiserror-generated Display outside the claim'),
-    'C04': ('K+M', KM, 'Bounded: v2: every accepted header within 240 bytes re-parsed at every longer/shorter length and with a different trailer (64 B); v1: two instances of the path summary over buffers agreeing on the header, LMAX = 64 (quick) / 112 (thorough); v2 again in Engine M with NO length bound (two lengths of the same byte stream: every L2 >= 16 + len, incl. the header alone, is accepted identically).', 'trusts Kani/CBMC, mirsym models and z3; auto-detection by composition with C06'),
-    'C05': ('K+M', KM, 'Bounded: every cut of every accepted header: v2 within 240 bytes; v1 (US-ASCII lines) LMAX = 64 / 112 via "no incomplete path is taken on the prefix"; flags from executing the PartialResult MIR on every outcome; v2 again in Engine M with NO length bound (every L2 < 16 + len of the same stream is an incomplete error).', 'trusts Kani/CBMC, mirsym models and z3; auto-detection by composition with C06'),
+    'C04': ('K+M', KM, 'Bounded: v2: every accepted header within 240 bytes re-parsed at every longer/shorter length and with a different trailer (64 B); v1: two instances of the path summary over buffers agreeing on the header, LMAX = 64 (quick; plus the accepted UNKNOWN lines - the only ones that can exceed 104 bytes - at LMAX = 112) / 112 (thorough); v2 again in Engine M with NO length bound (two lengths of the same byte stream: every L2 >= 16 + len, incl. the header alone, is accepted identically).', 'trusts Kani/CBMC, mirsym models and z3; auto-detection by composition with C06'),
+    'C05': ('K+M', KM, 'Bounded: every cut of every accepted header: v2 within 240 bytes; v1 (US-ASCII lines) LMAX = 64 (quick; plus the accepted UNKNOWN lines at LMAX = 112) / 112 (thorough) via "no incomplete path is taken on the prefix"; flags from executing the PartialResult MIR on every outcome; v2 again in Engine M with NO length bound (every L2 < 16 + len of the same stream is an incomplete error).', 'trusts Kani/CBMC, mirsym models and z3; auto-detection by composition with C06'),
     'C06': ('K+M', KM, 'HeaderResult::parse + PartialResult impls executed (MIR) on every pair of results the two dedicated parsers can return (exhaustive over variants, opaque payloads); "never both": v1 accepts only inputs starting with P (M, LMAX = 112), v2 only inputs starting with the signature (K, 240 B).', 'trusts mirsym\'s MIR executor and Kani/CBMC; the dedicated parsers themselves are C01/C02'),
     'C07': ('K+M', 'bounded model checking with Kani/CBMC (reference encoder + parse back) + SMT-based symbolic execution of the builder MIR for the wire bytes with unbounded value lengths (mirsym)', 'Bounded: K: every command/transport/address value, TLV lists of <= 2 items with literal value lengths, bytes compared with an independent reference encoder and parsed back; M: wire bytes of both constructors (IPv4, Unix with sparse symbolic content) and of one / two writes with value lengths as unbounded integers.', 'trusts Kani/CBMC, the reference encoder in kani/src/c07.rs, mirsym models; TLV lists of more than 2 items outside the claim'),
     'C08': ('M', M, 'All address values (symbolic 32/128-bit addresses and ports): the Display template is decoded from the MIR, the formatted text is constrained symbolically and must be accepted with the same value by all four text entry points (LMAX = 112) and be <= 107 bytes.', 'std\'s Display/FromStr of u16 and IpAddr are contract axioms (canonical decimal; from_str(display(a)) == a; 7..15 / 2..39 bytes); Header Display is covered by C15'),
-    'C09': ('K+M', 'bounded model checking with Kani/CBMC (fixed call-kind sequences, all values symbolic, real Vec) + SMT-based symbolic execution of the builder\'s MIR over all call sequences with unbounded payload sizes (mirsym)', 'Bounded: K: 37 (quick) + 125 (thorough) fixed-kind histories of <= 4 calls; M: every sequence of <= 2 (quick) / 3 (thorough) calls over a 9-operation menu after both constructors with payload sizes as unbounded integers (65535/65536 boundaries included), against a ghost history interpreter.', 'trusts Kani/CBMC, mirsym\'s Vec/io::Write models, z3 and the ghost interpreters (kani/src/c09.rs, mirsym/props_b.py)'),
+    'C09': ('K+M', 'bounded model checking with Kani/CBMC (fixed call-kind sequences, all values symbolic, real Vec) + SMT-based symbolic execution of the builder\'s MIR over all call sequences with unbounded payload sizes (mirsym)', 'Bounded: K: 43 (quick) + 125 (thorough) fixed-kind histories of <= 4 calls (incl. lazy / empty / by-reference batches); M: every sequence of <= 2 (quick) / 3 (thorough) calls over a 10-operation menu (incl. batches and hand-built TLV values) after both constructors with payload sizes as unbounded integers (65535/65536 boundaries included), against a ghost history interpreter.', 'trusts Kani/CBMC, mirsym\'s Vec/io::Write models, z3 and the ghost interpreters (kani/src/c09.rs, mirsym/props_b.py)'),
     'C10': ('K+M', 'same two engines as C09 with the whole-output oracle', 'Bounded: same histories as C09; the built bytes must be signature, control bytes, length, address block and the encodings in call order (K: bytewise on the real Vec; M: segment lists with unbounded sizes); batch vs single writes and capacity reservations are call kinds.', 'capacity is not modelled in M (that clause rests on K); same trusted base as C09'),
     'C11': ('K+M', KMV2, 'Bounded: K: every TLV section of <= 16 bytes (24 thorough) walked completely against a reference cursor, long values via a 300-byte section with symbolic head; M: one next() from an arbitrary reachable cursor state of a section of ANY length equals one step of the standard walk, preserves the cursor invariant and makes progress (inductive step; the whole-walk statement follows by induction on the cursor, argued in DESIGN.md 11.7, not machine-checked), and tlvs() of every accepted header starts that walk at the payload tail.', 'trusts Kani/CBMC, mirsym\'s v2 models and z3'),
     'C12': ('K+M', KM, 'Bounded: v2: every well-formed header within 240 bytes with one element replaced by every invalid value, plus exact blame on arbitrary input; v1: every input <= LMAX = 112 that is a well-formed line with exactly one corrupted element (9 corruption classes, general token positions) must take a path with the named terminal error; v2 blame (variant + payload + terminal flag) again in Engine M for every input length.', 'trusts Kani/CBMC, mirsym models, z3 and the oracles'),
